@@ -234,12 +234,31 @@ class World:
                 (op[2] if len(op) > 2 else 0) % 4]
             if label != c.name:
                 out.label('label-' + ('empty' if not label else 'shared'))
-            c.w.dataReceived(
-                _frame(self.comms.COMMAND(Func.acquire, None, None, label)))
+            data = _frame(self.comms.COMMAND(Func.acquire, None, None, label))
+            cut = (op[3] if len(op) > 3 else 0) % len(data)
+            if cut:
+                # the request arrives in two segments
+                out.label('request-in-two-segments')
+                c.w.dataReceived(data[:cut])
+                c.w.dataReceived(data[cut:])
+            else:
+                c.w.dataReceived(data)
             self.pump(out, where)
             if free and not c.told:
                 out.fail('progress/free-lock-not-granted-at-poll',
                          f'{where}: lock was free at {c.name}\'s first poll')
+        elif kind == 'half':
+            # a client dies in the middle of sending its request
+            self.gen += 1
+            c = Client(NCLIENT + 1, self.gen, self.clock)
+            self.all.append(c)
+            data = _frame(self.comms.COMMAND(Func.acquire, None, None, c.name))
+            c.w.dataReceived(data[:1 + op[1] % (len(data) - 1)])
+            c.released = True  # it never got to ask
+            c.was_told_at_release = False
+            self.drop(c)
+            self.pump(out, where)
+            out.label('client-dies-mid-request')
         elif kind == 'adv':
             target = self.clock.seconds() + op[1]
             while True:
@@ -394,16 +413,28 @@ def _client_copy(case, w, out, blocked):
     # the staging directory (mkdir through a shell) is not part of the property
     real_staging = w.comms.util.make_staging_dir
     w.comms.util.make_staging_dir = lambda: None
+    real_copy = DBI.copy
+
+    def slow_copy(dbi):
+        # the copy takes a while: everybody who waits polls meanwhile (the
+        # database has just been closed and reopened under the lock)
+        out.label('waiters-poll-during-the-copy')
+        w.do(['adv', case.get('copy_time', 3.0)], out)
+        return real_copy(dbi)
+
+    DBI.copy = slow_copy
     try:
         cw._do_copy([Method.connector, None])
     except _Starved:
         w.comms.util.make_staging_dir = real_staging
+        DBI.copy = real_copy
         out.fail('progress/client-starves',
                  f'the copy still waits for the lock after {blocked[0]} poll '
                  f'periods; db_lock={w.ctx.db_lock}')
         return out
     finally:
         w.comms.util.make_staging_dir = real_staging
+        DBI.copy = real_copy
     got = world.frames(ct.data)
     if not got or not isinstance(got[-1], dict):
         out.fail('copy/no-answer', f'{got!r:.200}')
@@ -517,6 +548,9 @@ _small = st.integers(0, NCLIENT - 1)
 _op = st.one_of(
     st.tuples(st.just('acq'), _small).map(list),
     st.tuples(st.just('acq'), _small, st.integers(0, 3)).map(list),
+    st.tuples(st.just('acq'), _small, st.integers(0, 3),
+              st.integers(1, 60)).map(list),
+    st.tuples(st.just('half'), st.integers(0, 60)).map(list),
     st.tuples(st.just('adv'), st.sampled_from(
         [0.25, 0.5, 0.9, 1.0, 1.1, 2.0, 3.0, 3.0, 4.0, 7.0])).map(list),
     st.tuples(st.just('adv'), st.sampled_from(
@@ -539,6 +573,7 @@ _client = st.fixed_dictionaries({
     'free_after': st.integers(1, 4),
     'how': st.integers(0, 1),
     'copy': st.sampled_from([0, 1]),
+    'copy_time': st.sampled_from([0.5, 3.0, 3.0, 6.5]),
     'phase': st.sampled_from([0.0, 0.5, 1.5, 2.75, 2.75, 2.875]),
 })
 
